@@ -62,9 +62,25 @@ class RefLib:
         return "ok", None
 
     def find(self, item):
-        return self.items.index(item) if item in self.items else -1
+        """Position of a held block.  Blocks are objects: of several duplicate wrappers with the same description the drivers
+        always hand over the most recent one, so that one is meant."""
+        if item not in self.items:
+            return -1
+        if item[0] == "dup":
+            return len(self.items) - 1 - self.items[::-1].index(item)
+        return self.items.index(item)
 
     def remove(self, items):
+        if len(items) == 1 and items[0][0] == "inner":
+            # the block held *inside* a duplicate wrapper is not itself a block of the library: refusing it (ValueError, nothing
+            # changes) and accepting it as a name for its wrapper (the wrapper goes, everything else stays) are both within the contract
+            w = [i for i in self.items if i[0] == "dup" and i[1] == items[0][1]]
+            if not w:
+                return "ValueError", self.items
+            new = self.clone()
+            del new.items[new.find(w[-1])]
+            self.items = new.items
+            return "either", None
         new = self.clone()
         for x in items:
             i = new.find(x)
@@ -123,7 +139,9 @@ def make_blocks(it, P: Program, universe) -> Dict[str, AObj]:
         elif cls == "Preamble":
             o = it.construct(c, [], {"value": S("value"), "start_line": S("line"), "raw": S("raw")})
         elif cls in ("ExplicitComment", "ImplicitComment"):
-            o = it.construct(c, [], {"comment": S("comment"), "start_line": S("line"), "raw": S("raw")})
+            # a twin label ("Ct" of "C") carries the same comment text; only line and raw differ
+            o = it.construct(c, [], {"comment": f"comment:{label[:-1] if label.endswith('t') and label[:-1] in universe else label}",
+                                     "start_line": S("line"), "raw": S("raw")})
         else:
             o = it.construct(c, [], {"error": ExcVal("Exception", [S("err")]), "start_line": S("line"), "raw": S("raw")})
         o.tag = label
@@ -177,7 +195,7 @@ class LibRun:
         def obj(item):
             if isinstance(item, str):
                 return blocks[item]
-            if item[0] == "blk":
+            if item[0] in ("blk", "inner"):
                 return blocks[item[1]]
             if item not in wrappers:
                 raise Diverged(item)
@@ -290,6 +308,8 @@ def operations(ref: RefLib, universe, thorough=False):
     for item in ref.items:
         ops.append(("remove", (item,), False))
         ops.append(("remove", (item,), True))
+        if item[0] == "dup" and item[1] != item[2]:
+            ops.append(("remove", (("inner", item[1]),), False))
     if free:
         ops.append(("remove", (("blk", free[0]),), False))            # not held
         if ref.items:
@@ -315,7 +335,8 @@ def explore_library(P: Program, tier: str, max_len: Optional[int] = None, jobs: 
     universe = UNIVERSE_THOROUGH if tier == "thorough" else UNIVERSE_QUICK
     max_len = max_len or (3 if tier == "thorough" else 2)
     depth = 3
-    runner = LibRun(P, universe)
+    run_universe = dict(universe, Ct=("ExplicitComment", None))      # the twin is used by the targeted histories below only
+    runner = LibRun(P, run_universe)
     seen = {(): []}
     frontier = [()]
     tasks = []
@@ -335,6 +356,20 @@ def explore_library(P: Program, tier: str, max_len: Optional[int] = None, jobs: 
                     seen[r2.sig()] = hist + [op]
                     nxt.append(r2.sig())
         frontier = nxt
+    # two duplicate wrappers with the same content (the same held block added again, twice, with a block in between): remove /
+    # replace of the later wrapper must take that one, not the equal-looking earlier one
+    for base in ("E1a", "S1a"):
+        ad = lambda l: ("add", (l,), None, False)
+        hist = [ad(base), ad(base), ad("C"), ad(base)]
+        tasks.append((hist, ("remove", (("dup", base, base),), False)))
+        tasks.append((hist, ("replace", ("dup", base, base), "P", None)))
+        tasks.append((hist[:2] + [ad(base)], ("remove", (("dup", base, base),), False)))
+    # two blocks with the same content at different places of the source (same comment text, other line / raw): removing or replacing
+    # the later one must take that one
+    ad = lambda l: ("add", (l,), None, False)
+    tasks.append(([ad("C"), ad("P"), ad("Ct")], ("remove", (("blk", "Ct"),), False)))
+    tasks.append(([ad("C"), ad("P"), ad("Ct")], ("replace", ("blk", "Ct"), "E2", None)))
+    tasks.append(([ad("C"), ad("E1a"), ad("Ct")], ("replace", ("blk", "Ct"), "E1b", True)))      # fails (duplicate key): the rollback keeps the place
     global _RUNNER
     _RUNNER = runner
     jobs = jobs or int(os.environ.get("VERIF_JOBS") or 0) or min(16, os.cpu_count() or 1)
